@@ -268,5 +268,6 @@ Proof. induction k; intros [|a l] acc; simpl; auto. now rewrite IHk. Qed.
 Theorem model_terms_firstn facX N t u s acc xs es k :
   firstn k (model_terms facX N t u s acc xs es) = model_terms facX N t u s acc (firstn k xs) (firstn k es).
 Proof.
-  unfold model_terms. rewrite map2_firstn, xcumprod_firstn, map3_firstn, !mscan_firstn. reflexivity.
+  unfold model_terms, model_terms_z. cbv zeta.
+  rewrite map2_firstn, absorb_firstn, xcumprod_firstn, map3_firstn, !mscan_firstn. reflexivity.
 Qed.
